@@ -481,9 +481,15 @@ def build_plan(lines, tier):
                 payload[key] = {'k': 'payload', 'shape': key, 'items': []}
                 for b in (ln['b1'], ln['b2']):
                     payload[key]['items'].append(make_item(ln, 'benign', 'esc', b[0], b[1], b[0], b[1]))
-            for (p, p2) in payloads(ln['cls'], pos, tier):
+            for n, (p, p2) in enumerate(payloads(ln['cls'], pos, tier)):
                 for mode in ln['modes']:
                     payload[key]['items'].append(make_item(ln, ln['cls'], mode, p, p2, p, p2))
+                    if n < (2 if tier == 'quick' else 6) and ' ' in (ln['pre'] + ln['mid'] + ln['suf']):
+                        # the same filter with its blanks spelled as line breaks
+                        for ws in ('\n', '\r\n'):
+                            it = make_item(ln, ln['cls'], mode, p, p2, p, p2)
+                            it['ws'] = ws
+                            payload[key]['items'].append(it)
         elif ln['g'] == 'invalid':
             form = ln['kind']
             invalid.setdefault(form, {'k': 'invalid', 'shape': ('*', 'invalid', form, 'none'), 'items': []})
@@ -512,6 +518,15 @@ def instantiate(item, canary):
     else:
         e = place(pos, mode, p)
         text = item['pre'] + e + item['suf']
+    if item.get('ws'):
+        # the blanks TLC rendered between tokens, spelled as line breaks (pyparsing skips any white space):
+        # only the text around the payload is touched, never the payload itself
+        def nl(s):
+            return s.replace(' ', item['ws'])
+        if pos == 'xstr_both':
+            text = nl(item['pre']) + p + nl(item['mid']) + e + nl(item['suf'])
+        else:
+            text = nl(item['pre']) + e + nl(item['suf'])
     item.update({'text': text, 'pay': p, 'pay2': p2, 'esc': e})
     return item
 
